@@ -7,6 +7,7 @@ import (
 	"go/token"
 	"go/types"
 	"math"
+	"sort"
 	"strings"
 
 	"golang.org/x/tools/go/ssa"
@@ -23,6 +24,7 @@ func init() {
 		{Name: "only-first-filter-checked", Rule: "R17.1", Where: "(*Subscribe).WellFormed", Edits: []Edit{{"subscribe.go", "\tfor _, f := range p.filters {\n\t\tif err := f.WellFormed(); err != nil {\n\t\t\treturn err\n\t\t}\n\t}\n\treturn nil", "\tfor _, f := range p.filters {\n\t\treturn f.WellFormed()\n\t}\n\treturn nil"}}},
 		{Name: "string-skips-withform", Rule: "R17.2", Where: "(*Subscribe).String", Edits: []Edit{{"subscribe.go", "\treturn withForm(p, fmt.Sprintf(\"%s p%v %s %v bytes\",\n\t\tfirstByte(p.fixed).String(),\n\t\tp.packetID,\n\t\tp.filterString(),\n\t\tp.width(),\n\t))", "\treturn fmt.Sprintf(\"%s p%v %s %v bytes\",\n\t\tfirstByte(p.fixed).String(),\n\t\tp.packetID,\n\t\tp.filterString(),\n\t\tp.width(),\n\t)"}}},
 		{Name: "withform-inverted", Rule: "R17.2", Where: "withForm", Edits: []Edit{{"errors.go", "\tif err := p.WellFormed(); err != nil {\n\t\treturn fmt.Sprintf(\"%s, malformed! %s %s\", v, err.reason, err.ref)\n\t}\n\treturn v", "\tif err := p.WellFormed(); err != nil {\n\t\treturn v\n\t}\n\treturn fmt.Sprintf(\"%s, malformed! %s %s\", v, \"\", \"\")"}}},
+		{Name: "stricter-rule-behind-a-length-guard", Rule: "R17.3", Where: "(*TopicFilter).WellFormed#content-free", Edits: []Edit{{"topicfilter.go", "\tif c.options.Has(byte(OptQoS3)) {\n\t\treturn newMalformed(c, \"QoS\", \"invalid\")\n\t}\n\treturn nil", "\tif c.options.Has(byte(OptQoS3)) {\n\t\treturn newMalformed(c, \"QoS\", \"invalid\")\n\t}\n\tif len(c.filter) > 7 && string(c.filter[:7]) == \"$share/\" && c.options.Has(byte(OptNL)) {\n\t\treturn newMalformed(c, \"no local\", \"shared\")\n\t}\n\treturn nil"}}},
 		{Name: "tests-reordered", Silent: true, Edits: []Edit{{"topicfilter.go", "\tif len(c.filter) == 0 {\n\t\treturn newMalformed(c, \"filter\", \"empty\")\n\t}\n\tif c.options.Has(byte(OptQoS3)) {\n\t\treturn newMalformed(c, \"QoS\", \"invalid\")\n\t}\n\treturn nil", "\tif c.options.Has(byte(OptQoS3)) {\n\t\treturn newMalformed(c, \"QoS\", \"invalid\")\n\t}\n\tif len(c.filter) == 0 {\n\t\treturn newMalformed(c, \"filter\", \"empty\")\n\t}\n\treturn nil"}}},
 	}})
 }
@@ -134,6 +136,76 @@ func ints(vs ...int64) []sv {
 	return out
 }
 
+// lenDomainFor: the representative lengths a predicate is evaluated on — 0, 1, 2 and the values around every
+// constant that a length is compared with anywhere in the mq functions the predicate reaches (so that a guard such
+// as `len(x) > 7` is evaluated on both sides, and whatever it guards is evaluated at all).
+func (p *Prog) lenDomainFor(fn *ssa.Function) []int64 {
+	key := "lendom:" + qname(fn)
+	if v, ok := p.cache[key]; ok {
+		return v.([]int64)
+	}
+	set := map[int64]bool{0: true, 1: true, 2: true}
+	var fromLen func(v ssa.Value, d int) bool
+	fromLen = func(v ssa.Value, d int) bool {
+		if d > 4 {
+			return false
+		}
+		switch x := v.(type) {
+		case *ssa.Call:
+			if bi, ok := x.Call.Value.(*ssa.Builtin); ok && bi.Name() == "len" {
+				return true
+			}
+		case *ssa.Convert:
+			return fromLen(x.X, d+1)
+		case *ssa.ChangeType:
+			return fromLen(x.X, d+1)
+		case *ssa.BinOp:
+			if x.Op == token.ADD || x.Op == token.SUB {
+				return fromLen(x.X, d+1) || fromLen(x.Y, d+1)
+			}
+		}
+		return false
+	}
+	for g := range p.Reach([]*ssa.Function{fn}) {
+		for _, b := range g.Blocks {
+			for _, ins := range b.Instrs {
+				bo, ok := ins.(*ssa.BinOp)
+				if !ok {
+					continue
+				}
+				switch bo.Op {
+				case token.LSS, token.LEQ, token.GTR, token.GEQ, token.EQL, token.NEQ:
+				default:
+					continue
+				}
+				for i, o := range []ssa.Value{bo.X, bo.Y} {
+					k, isC := constInt(o)
+					if !isC || k < 0 || k > 1<<20 {
+						continue
+					}
+					if fromLen([]ssa.Value{bo.Y, bo.X}[i], 0) {
+						for _, v := range []int64{k - 1, k, k + 1, k + 2} {
+							if v >= 0 {
+								set[v] = true
+							}
+						}
+					}
+				}
+			}
+		}
+	}
+	var out []int64
+	for k := range set {
+		out = append(out, k)
+	}
+	sort.Slice(out, func(i, j int) bool { return out[i] < out[j] })
+	if len(out) > 24 {
+		out = out[:24]
+	}
+	p.cache[key] = out
+	return out
+}
+
 func lens(vs ...int64) []sv {
 	var out []sv
 	for _, v := range vs {
@@ -168,9 +240,11 @@ func checkC17(p *Prog, c *Check) {
 	c.Explanation = "The SSA form of each predicate is a decision function over the receiver's fields. The fields are identified through the exported accessors (TopicName, TopicAlias, PacketID, Filters, …) and the constructor's type code; every combination of abstract values of those atoms is evaluated through the function's decision tree and compared with the rule written here from the property text. The enumeration is over the atoms' finite abstract domain (e.g. all 256 values of a flag byte, lengths {0,1,2}, identifiers {0,1,max}), not over packets."
 	c.Trusted = []string{"go/types + go/ssa (x/tools v0.29.0) faithful IR", "the rules as stated in the property", "abstract domains: a length is represented by 0, 1, 2; an integer by 0, 1, its maximum and the values around constants it is compared with"}
 	c.NotDecided = []string{"that fields not mentioned in the rules have no influence beyond the one-at-a-time variation performed"}
+	c.Rule("R17.3", "the documented rules speak of emptiness, counts, flags and identifiers only: nothing reachable from a WellFormed predicate looks at the content of a string or byte-slice (no element access, no comparison with a non-empty string, no range over a string, no library function of the content) — so a stricter rule hidden behind a length guard the abstract lengths do not reach is reported, not missed")
 	checkPublishWF(p, c)
 	checkTopicFilterWF(p, c)
 	checkSubscribeWF(p, c)
+	checkWellFormedContentFree(p, c)
 	checkStringForm(p, c)
 }
 
@@ -192,7 +266,7 @@ func checkPublishWF(p *Prog, c *Check) {
 	}
 	keys := []string{fpath(0, fTopic), fpath(0, fAlias), fpath(0, fID), fpath(0, fFixed)}
 	dom := map[string][]sv{
-		keys[0]: lens(0, 1, 2),
+		keys[0]: lens(p.lenDomainFor(fn)...),
 		keys[1]: ints(0, 1, 65535),
 		keys[2]: ints(0, 1, 65535),
 		keys[3]: allBytes(),
@@ -267,7 +341,7 @@ func checkTopicFilterWF(p *Prog, c *Check) {
 		return
 	}
 	keys := []string{fpath(0, fF), fpath(0, fO)}
-	dom := map[string][]sv{keys[0]: lens(0, 1, 2), keys[1]: allBytes()}
+	dom := map[string][]sv{keys[0]: lens(p.lenDomainFor(fn)...), keys[1]: allBytes()}
 	n := 0
 	bad := ""
 	product(keys, dom, func(a symAssign) bool {
@@ -289,7 +363,7 @@ func checkTopicFilterWF(p *Prog, c *Check) {
 	if bad != "" {
 		c.Bad("R17.1", cons, p.Pos(fn.Pos()), bad)
 	} else {
-		c.OK("R17.1", cons, p.Pos(fn.Pos()), fmt.Sprintf("error ⇔ filter empty ∨ (options & 3) = 3 on all %d assignments (3 lengths × 256 option bytes)", n))
+		c.OK("R17.1", cons, p.Pos(fn.Pos()), fmt.Sprintf("error ⇔ filter empty ∨ (options & 3) = 3 on all %d assignments (lengths %v × 256 option bytes)", n, p.lenDomainFor(fn)))
 	}
 }
 
@@ -337,6 +411,9 @@ func checkSubscribeWF(p *Prog, c *Check) {
 				ko := fmt.Sprintf("%s[%d].f%d", fpath(0, fFilters), k, fO)
 				keys = append(keys, kf, ko)
 				dom[kf] = lens(0, 1)
+				if nf == 1 {
+					dom[kf] = lens(p.lenDomainFor(fn)...)
+				}
 				if nf == 1 {
 					dom[ko] = allBytes()
 				} else {
@@ -523,6 +600,88 @@ func stripIface(v ssa.Value) ssa.Value {
 			v = x.X
 		default:
 			return v
+		}
+	}
+}
+
+// checkWellFormedContentFree (R17.3): see the rule text.
+func checkWellFormedContentFree(p *Prog, c *Check) {
+	isText := func(t types.Type) bool {
+		switch u := t.Underlying().(type) {
+		case *types.Basic:
+			return u.Info()&types.IsString != 0
+		case *types.Slice:
+			b, ok := u.Elem().Underlying().(*types.Basic)
+			return ok && (b.Kind() == types.Uint8 || b.Kind() == types.Int32)
+		}
+		return false
+	}
+	for _, tn := range []string{"Publish", "Subscribe", "TopicFilter"} {
+		fn := p.Method(tn, "WellFormed")
+		if fn == nil {
+			continue
+		}
+		cons := "(*" + tn + ").WellFormed#content-free"
+		bad := ""
+		nfn := 0
+		for _, g := range sortedFuncs(p.Reach([]*ssa.Function{fn})) {
+			if g.Blocks == nil {
+				continue
+			}
+			nfn++
+			for _, b := range g.Blocks {
+				for _, ins := range b.Instrs {
+					why := ""
+					switch x := ins.(type) {
+					case *ssa.BinOp:
+						switch x.Op {
+						case token.EQL, token.NEQ, token.LSS, token.LEQ, token.GTR, token.GEQ:
+							if bt, ok := x.X.Type().Underlying().(*types.Basic); ok && bt.Info()&types.IsString != 0 {
+								emptyConst := func(v ssa.Value) bool {
+									cst, ok := v.(*ssa.Const)
+									return ok && cst.Value != nil && cst.Value.ExactString() == `""`
+								}
+								if !emptyConst(x.X) && !emptyConst(x.Y) {
+									why = "compares string contents"
+								}
+							}
+						}
+					case *ssa.IndexAddr:
+						if isText(x.X.Type()) {
+							why = "reads an element of a string / byte slice"
+						}
+					case *ssa.Index:
+						if isText(x.X.Type()) {
+							why = "reads an element of a string"
+						}
+					case *ssa.Lookup:
+						if isText(x.X.Type()) {
+							why = "indexes a string"
+						}
+					case *ssa.Range:
+						if isText(x.X.Type()) {
+							why = "ranges over a string"
+						}
+					case *ssa.Call:
+						sc := x.Call.StaticCallee()
+						if sc != nil && sc.Blocks == nil && !strings.HasPrefix(fullName(sc), "fmt.") && !strings.HasPrefix(fullName(sc), "errors.") {
+							for _, a := range x.Call.Args {
+								if _, isC := a.(*ssa.Const); !isC && isText(a.Type()) {
+									why = "passes a string / byte slice to " + fullName(sc)
+								}
+							}
+						}
+					}
+					if why != "" && bad == "" {
+						bad = fmt.Sprintf("%s %s at %s: the outcome can depend on the content of a field, which the documented rule does not", qname(g), why, posOf(p, ins))
+					}
+				}
+			}
+		}
+		if bad != "" {
+			c.Bad("R17.3", cons, p.Pos(fn.Pos()), bad)
+		} else {
+			c.OK("R17.3", cons, p.Pos(fn.Pos()), fmt.Sprintf("%d function(s) reachable, none looks at the content of a string or byte slice", nfn))
 		}
 	}
 }
